@@ -216,6 +216,14 @@ pub struct Scn {
     /// predicate
     #[serde(default)]
     pub alt: bool,
+    /// mode 3: what the disturbing listener does: false = it panics, true = it calls back into
+    /// the service it listens to
+    #[serde(default)]
+    pub reentrant: bool,
+    /// requests share two keys, so that a cache in the stack has hits (only with `reentrant`;
+    /// the transparency rules do not apply to such a run)
+    #[serde(default)]
+    pub dup_keys: bool,
     /// per request: (start_ms, outcome script for the inner calls of that request)
     pub reqs: Vec<(u64, Vec<Behaviour>)>,
     pub knobs: SchedKnobs,
@@ -269,7 +277,9 @@ pub fn gen(rng: &mut Rng) -> Scn {
     let clone_warmup_ms = if mode == 0 && rng.chance(1, 5) { *rng.pick(&[1u64, 5, 20]) } else { 0 };
     let primed_template = mode == 0 && rng.chance(1, 4);
     let alt = rng.chance(1, 3);
-    Scn { stack, mode, triggering, ready_script, pressure, zero_backoff, clone_warmup_ms, primed_template, alt, reqs, knobs }
+    let reentrant = mode == 3 && rng.chance(1, 3);
+    let dup_keys = reentrant && stack.contains(&L::Cache);
+    Scn { stack, mode, triggering, ready_script, pressure, zero_backoff, clone_warmup_ms, primed_template, alt, reentrant, dup_keys, reqs, knobs }
 }
 
 pub fn valid(s: &Scn) -> bool {
@@ -288,15 +298,45 @@ pub fn valid(s: &Scn) -> bool {
         && s.ready_script.len() <= 8
         && s.ready_script.iter().all(|x| *x <= 2)
         && (s.mode == 0 || s.ready_script.is_empty())
+        && (!s.reentrant || s.mode == 3)
+        && (!s.dup_keys || s.reentrant)
         && s.knobs.jumps.is_empty()
 }
 
-fn lst(layer: i64, ev: i64, panic_first: bool, second: bool) {
+thread_local! {
+    /// the finished stack, for listeners that call back into it
+    static REENTER: std::cell::RefCell<Option<Bx>> = const { std::cell::RefCell::new(None) };
+    static REENTER_DEPTH: std::cell::Cell<u32> = const { std::cell::Cell::new(0) };
+    static REENTER_N: std::cell::Cell<u32> = const { std::cell::Cell::new(0) };
+}
+
+/// What the first of the two listeners of every hook does: 0 nothing, 1 panic, 2 call back into
+/// the service it is listening to (a clone, polled once with a no-op waker: it never waits).
+fn lst(layer: i64, ev: i64, first_does: u8, second: bool) {
     // two listeners are registered per hook: this is called by both
     if !second {
-        if panic_first {
+        if first_does == 1 {
             world::fault("listener_panic");
             std::panic::panic_any(SimPanic);
+        }
+        if first_does == 2 && REENTER_DEPTH.with(|d| d.get()) == 0 && REENTER_N.with(|n| n.get()) < 6 {
+            let svc = REENTER.with(|r| r.borrow().clone());
+            if let Some(mut svc) = svc {
+                REENTER_DEPTH.with(|d| d.set(1));
+                let k = REENTER_N.with(|n| {
+                    n.set(n.get() + 1);
+                    n.get()
+                });
+                world::fault("listener_reentered");
+                let w = futures::task::noop_waker();
+                let mut cx = Context::from_waker(&w);
+                if let Poll::Ready(Ok(())) = svc.poll_ready(&mut cx) {
+                    let mut f = svc.call(Req { id: 900 + k, key: 1900 + k });
+                    let _ = std::future::Future::poll(std::pin::Pin::new(&mut f), &mut cx);
+                    drop(f);
+                }
+                REENTER_DEPTH.with(|d| d.set(0));
+            }
         }
     } else {
         world::note("listener", layer, ev);
@@ -308,7 +348,11 @@ fn lst(layer: i64, ev: i64, panic_first: bool, second: bool) {
 #[allow(clippy::too_many_arguments)]
 fn wrap(kind: L, pos: i64, trig: bool, pressure: bool, zero_backoff: bool, alt: bool, listeners: u8, inner: Bx) -> Bx {
     let backoff = Duration::from_millis(if zero_backoff { 0 } else { 1 });
-    let pf = listeners == 2;
+    let pf: u8 = match listeners {
+        2 => 1,
+        3 => 2,
+        _ => 0,
+    };
     let want_l = listeners > 0;
     match kind {
         L::Bulkhead => {
@@ -415,7 +459,7 @@ fn wrap(kind: L, pos: i64, trig: bool, pressure: bool, zero_backoff: bool, alt: 
         }
         L::Cache => {
             use tower_resilience_cache::{CacheError, CacheLayer};
-            let mut b = CacheLayer::<Req, u32>::builder().max_size(64).key_extractor(|r: &Req| r.id);
+            let mut b = CacheLayer::<Req, u32>::builder().max_size(64).key_extractor(|r: &Req| r.key);
             if want_l {
                 b = b.on_miss(move || lst(pos, 1, pf, false)).on_miss(move || lst(pos, 1, pf, true)).on_hit(move || lst(pos, 2, pf, false)).on_hit(move || lst(pos, 2, pf, true));
             }
@@ -573,6 +617,9 @@ fn run_once(s: &Scn, chooser: &mut Chooser, rt_seed: u64, listeners: u8) -> SimO
             }
             svc = wrap(*kind, pos, scn.triggering, scn.pressure, scn.zero_backoff, scn.alt, listeners, svc);
         }
+        REENTER.with(|r| *r.borrow_mut() = if listeners == 3 { Some(svc.clone()) } else { None });
+        REENTER_N.with(|n| n.set(0));
+        REENTER_DEPTH.with(|d| d.set(0));
         let mut defs = vec![];
         // callers clone the shared service when they start; optionally a primer task has polled
         // that shared instance ready (without calling it) before
@@ -589,6 +636,7 @@ fn run_once(s: &Scn, chooser: &mut Chooser, rt_seed: u64, listeners: u8) -> SimO
             defs.push(TaskDef { start_ms: 0, make, cancel: Cancel::Never });
         }
         let shift = if scn.primed_template { 1 + scn.clone_warmup_ms } else { 0 };
+        let dup_keys = scn.dup_keys;
         for (i, (start, _)) in scn.reqs.iter().enumerate() {
             let template = template.clone();
             let make: Box<dyn FnOnce() -> LocalFut> = Box::new(move || {
@@ -600,7 +648,7 @@ fn run_once(s: &Scn, chooser: &mut Chooser, rt_seed: u64, listeners: u8) -> SimO
                             world::note("ready_err", i as i64, e.inner.as_ref().map(|x| x.kind as i64).unwrap_or(-1));
                             Out { err: Some("ReadyErr"), inner: e.inner.clone(), aux: e.path.len() as i64, ..Default::default() }
                         }
-                        Ok(sv) => match sv.call(Req { id: i as u32, key: 1000 + i as u32 }).await {
+                        Ok(sv) => match sv.call(Req { id: i as u32, key: if dup_keys { 1000 + (i as u32 % 2) } else { 1000 + i as u32 } }).await {
                             Ok(r) => Out::ok(r),
                             Err(e) => {
                                 ERRPATH.with(|p| p.borrow_mut().insert(i, e.path.clone()));
@@ -618,6 +666,7 @@ fn run_once(s: &Scn, chooser: &mut Chooser, rt_seed: u64, listeners: u8) -> SimO
     let mut step = |_k| {};
     let mut idle = || {};
     let rep = run_sim(cfg, chooser, setup, Hooks { step: &mut step, idle: &mut idle });
+    REENTER.with(|r| *r.borrow_mut() = None);
     let log = world::with(|w| std::mem::take(&mut w.log));
     let w = world::take();
     SimOut { rep, log, world: w }
@@ -715,7 +764,7 @@ pub fn run(s: &Scn, ctx: &mut RunCtx) -> RunOutput {
                 // a failing primary makes the hedge fire once its delay is over: for hedge an
                 // inner error *is* the triggering condition
                 let hedge_triggered = s.stack.contains(&L::Hedge) && matches!(s.reqs[i].1[0].out, Outcome::Err(_));
-                if !s.triggering && !hedge_triggered {
+                if !s.triggering && !hedge_triggered && !s.dup_keys {
                     if mine.len() != 1 {
                         push("C20.exactly_once", innermost.name(), format!("request {} reached the inner service {} times through {}", i, mine.len(), stack_desc));
                         continue;
@@ -793,11 +842,12 @@ pub fn run(s: &Scn, ctx: &mut RunCtx) -> RunOutput {
     }
     // ---- listeners only observe
     let mut nontrivial = true;
+    let mut other_faults: std::collections::BTreeMap<&'static str, u64> = Default::default();
     let mut digest = world::digest(&main.log);
     let mut steps = main.rep.steps as u64;
     if s.mode == 3 {
         let mut c2 = Chooser::from_trace(ctx.chooser.trace.clone());
-        let other = run_once(s, &mut c2, ctx.rt_seed, 2);
+        let other = run_once(s, &mut c2, ctx.rt_seed, if s.reentrant { 3 } else { 2 });
         steps += other.rep.steps as u64;
         digest = crate::rng::mix(&[digest, world::digest(&other.log)]);
         let a = outcome_key(&main, n, off);
@@ -813,11 +863,13 @@ pub fn run(s: &Scn, ctx: &mut RunCtx) -> RunOutput {
             m
         };
         let (ca, cb) = (count(&main), count(&other));
-        if ca != cb {
+        // (a listener that calls back into the service adds events of its own)
+        if ca != cb && !s.reentrant {
             push("C20.surviving_listeners_see_all", "", format!("events seen by the second listener of each hook: {:?} without panics, {:?} when the first listener panics; stack {}", ca, cb, stack_desc));
         }
-        nontrivial = other.world.faults.get("listener_panic").copied().unwrap_or(0) > 0;
-        if c2.diverged {
+        other_faults = other.world.faults.clone();
+        nontrivial = other.world.faults.get("listener_panic").copied().unwrap_or(0) + other.world.faults.get("listener_reentered").copied().unwrap_or(0) > 0;
+        if c2.diverged && !s.reentrant {
             push("C20.outcomes_unchanged", "schedule_diverged", "the second run could not follow the first run's schedule".into());
         }
     }
@@ -826,6 +878,11 @@ pub fn run(s: &Scn, ctx: &mut RunCtx) -> RunOutput {
     let mut faults = main.world.faults.clone();
     if s.mode == 3 {
         *faults.entry("listener_panic_run").or_insert(0) += 1;
+        for (k, v) in other_faults.iter() {
+            if k.starts_with("listener_") {
+                *faults.entry(k).or_insert(0) += *v;
+            }
+        }
     }
     let mut probes = main.world.probes.clone();
     *probes.entry(match s.mode {
